@@ -183,6 +183,54 @@ def main():
                         if r1 != r2 or P.proj(u, emb, is_set) != P.proj(twin, emb, is_set):
                             mism.append(dict(where, kind='roundtrip-unusable', trip=name, after=a))
                             break
+        # __setstate__ replaces the whole state of an object that already has one (what a data manager does when it
+        # reloads an invalidated object): leaf <- state of another leaf (with and without successor), tree <- None,
+        # tree <- state of the tree before this transition
+        for impl, classes in (('c', cC), ('py', cP)):
+            if impl not in objs:
+                continue
+            cls = classes[2] if is_set else classes[0]
+            where = dict(fam=fam, impl=impl, is_set=is_set, sizes=[job['leaf'], job['internal']], ti=ti, act=tr['act'])
+            tgt, src = build(cls, ti), build(cls, ti)
+            tl, sl = P.collect_leaves(tgt), P.collect_leaves(src)
+            for ai in range(min(len(tl), 3)):
+                for bi in (0, len(sl) - 1):
+                    if ai == bi and len(sl) > 1:
+                        continue
+                    st = sl[bi].__getstate__()
+                    counts['roundtrips'] += 1
+                    try:
+                        tl[ai].__setstate__(st)
+                        got = tl[ai].__getstate__()
+                    except Exception as e:
+                        mism.append(dict(where, kind='setstate-on-used-leaf-raises', real=repr(e)))
+                        continue
+                    same = (got is None and st is None) or (got is not None and st is not None and len(got) == len(st) and got[0] == st[0]
+                                                            and (len(st) == 1 or got[1] is st[1]))
+                    if not same:
+                        mism.append(dict(where, kind='setstate-on-used-leaf', target=ai, source=bi,
+                                         model='state %s successor' % ('with' if st and len(st) > 1 else 'without'),
+                                         real='state %s successor' % ('with' if got and len(got) > 1 else 'without')))
+            del tl, sl, tgt, src
+            for what in ('none', 'previous'):
+                tgt = build(cls, ti)
+                counts['roundtrips'] += 1
+                try:
+                    if what == 'none':
+                        tgt.__setstate__(None)
+                        want = {'t': 'I', 'kids': [], 'seps': [], 'fb': 0}
+                    else:
+                        prev = cls()
+                        for pi in g.path_to(tr['from']):
+                            apply(prev, emb, payloads[pi]['act'], 0)
+                        tgt.__setstate__(prev.__getstate__())
+                        want = P.proj(prev, emb, is_set)
+                    got = P.proj(tgt, emb, is_set)
+                except Exception as e:
+                    mism.append(dict(where, kind='setstate-on-used-tree-raises', source=what, real=repr(e)))
+                    continue
+                if got != want:
+                    mism.append(dict(where, kind='setstate-on-used-tree', source=what, model=want, real=got))
         # fs leaves: toBytes() is all keys then all values; fromBytes() rebuilds the leaf (C and Python alike)
         if fam == 'fs' and not is_set and 'c' in objs and 'py' in objs:
             mleaves = []
